@@ -1,0 +1,27 @@
+//go:build verif
+
+package base
+
+// Contracts for property C02 (channel-based read access). Comment-only; read by /verif/engine.
+
+//@ props C02 C03
+
+//@ func IsDefaultCollection
+//@   pure
+
+//@ props C02
+
+// SetOf(names...) = SetFromArray(names): a freshly allocated, non-nil set of exactly the names
+// (verified against SetFromArray's contract in base/zz_verif_c03.go).
+//@ func SetOf
+//@   ensures[fresh]  result != nil && !old(allocated(result))
+//@   ensures[empty]  len(names) == 0 ==> len(result) == 0 && (forall k string :: {k in result} !(k in result))
+//@   ensures[sound]  forall k string :: {k in result} (k in result) ==> elem(names, k)
+
+//@ func Set.Add
+//@   safety on
+//@   requires set != nil
+//@   modifies elems(set)
+//@   ensures[same]   result == set
+//@   ensures[keys]   forall k string :: {k in set} (k in set) <==> old(k in set) || k == value
+//@   ensures[len]    len(set) == old(len(set)) + ite(old(value in set), 0, 1)
